@@ -149,6 +149,10 @@ def gen_item(rng, idx, debug=False):
     if rng.random() < 0.25:
         it["container"]["bounds"] = [(rng.choice(["bound", "bounds"]),
                                       rng.choice(["T: Clone", "U: core::fmt::Debug, T: Copy", "Vec<T>: Sized"]))]
+        if rng.random() < 0.4:
+            # a second (third) bound attribute on the same item: all of them are merged
+            for extra in rng.sample(["T: Send", "U: Sync", "Option<T>: Clone", "T: core::fmt::Octal, U: Copy"], rng.choice([1, 1, 2])):
+                it["container"]["bounds"].append((rng.choice(["bound", "bounds"]), extra))
     if not debug and rng.random() < 0.2:
         it["container"]["rename_all"] = rng.choice(CASINGS)
     if rng.random() < 0.04:
